@@ -134,3 +134,27 @@ Proof.
   intros H; inversion H; subst. cbn [mx_claim mx_reply].
   apply single_ok_iff in S as [x [Lk Px]]. destruct x; cbn in Px; try discriminate. inversion Px; subst. eauto.
 Qed.
+
+(* the claim and release handlers are attached to the events the configuration names - two distinct in-events *)
+Lemma multiclient_names_from_cfg c n itf fc fx : check_multiclient (Some c) n itf fc = Ok (Some fx) ->
+  e_name (mx_claim fx) = mcc_claim c /\ e_name (mx_release fx) = mcc_release c /\
+  e_dir (mx_claim fx) = EIn /\ e_dir (mx_release fx) = EIn /\ mcc_claim c <> mcc_release c /\
+  In (mx_claim fx) (it_events itf) /\ In (mx_release fx) (it_events itf).
+Proof.
+  unfold check_multiclient.
+  destruct (negb (str_eqb n (mcc_port c))); [discriminate|].
+  destruct (str_eqb (mcc_claim c) (mcc_release c)) eqn:Eq; [discriminate|].
+  destruct (filter _ (it_events itf)) as [|claim t] eqn:F1; [discriminate|].
+  destruct (single as_enum _); [|discriminate]. destruct (negb _); [discriminate|].
+  destruct (filter (fun e => event_eqb_name e (mcc_release c) && is_in e) (it_events itf)) as [|rel t'] eqn:F2; [discriminate|].
+  intros H; inversion H; subst. cbn [mx_claim mx_release].
+  assert (H1 : In claim (filter (fun e => event_eqb_name e (mcc_claim c) && is_in e) (it_events itf))) by (rewrite F1; now left).
+  assert (H2 : In rel (filter (fun e => event_eqb_name e (mcc_release c) && is_in e) (it_events itf))) by (rewrite F2; now left).
+  apply filter_In in H1 as [I1 P1]. apply filter_In in H2 as [I2 P2].
+  apply andb_true_iff in P1 as [N1 D1]. apply andb_true_iff in P2 as [N2 D2].
+  unfold event_eqb_name in N1, N2. apply PyStrFacts.str_eqb_eq in N1, N2. unfold is_in in D1, D2.
+  repeat split; auto.
+  - destruct (e_dir claim); [reflexivity|discriminate].
+  - destruct (e_dir rel); [reflexivity|discriminate].
+  - intros E. rewrite E in Eq. rewrite PyStrFacts.str_eqb_refl in Eq. discriminate.
+Qed.
